@@ -984,14 +984,13 @@ Variable H : bytes -> bytes.
 
 Inductive chain_result := CEmpty | COk (h : bytes) (p : list Z) | CUnlinked | CCrash (k : string).
 
-(* A chain of nodes, root first.  `order` says how a branch combines its own path, the index of the link to its child and
-   what the child spells: the code prepends index then path (order = false); the tree format means path, then index
-   (order = true). Failures of deeper nodes take precedence, as in the loop, which visits the deepest node first. *)
-Fixpoint chain_fn (order : bool) (nodes : list node) : chain_result :=
+(* A chain of nodes, root first: a branch spells its own path, then the index of the link to its child, then what the child
+   spells (the tree format).  Failures of deeper nodes take precedence, as in the loop, which visits the deepest node first. *)
+Fixpoint chain_fn (nodes : list node) : chain_result :=
   match nodes with
   | [] => CEmpty
   | n :: rest =>
-    match chain_fn order rest with
+    match chain_fn rest with
     | CEmpty =>
       match node_hash H n with
       | Ok h => COk h (hex_path (node_path n))
@@ -1006,7 +1005,7 @@ Fixpoint chain_fn (order : bool) (nodes : list node) : chain_result :=
         | BranchNode p links =>
           match index_of hc links with
           | None => CUnlinked
-          | Some k => COk h (if order then hex_path p ++ format_index k ++ below else format_index k ++ hex_path p ++ below)
+          | Some k => COk h (hex_path p ++ format_index k ++ below)
           end
         end
       | Reject => CCrash "ValueError"
@@ -1019,7 +1018,7 @@ Fixpoint chain_fn (order : bool) (nodes : list node) : chain_result :=
 
 Lemma walk_chain : forall nodes above,
   walk H (rev nodes ++ above) None [] =
-  match chain_fn false nodes with
+  match chain_fn nodes with
   | CEmpty => walk H above None []
   | COk h p => walk H above (Some h) p
   | CUnlinked => WUnlinked
@@ -1028,7 +1027,7 @@ Lemma walk_chain : forall nodes above,
 Proof.
   induction nodes as [|n rest IH]; intros above; [reflexivity|].
   cbn [rev chain_fn]. rewrite <- app_assoc. cbn [app]. rewrite IH.
-  destruct (chain_fn false rest) as [|hc below| |k]; try reflexivity.
+  destruct (chain_fn rest) as [|hc below| |k]; try reflexivity.
   - cbn [walk]. destruct (node_hash H n) as [h| |k]; try reflexivity. now rewrite app_nil_r.
   - cbn [walk]. destruct (node_hash H n) as [h| |k]; try reflexivity.
     destruct n as [p v|p links]; [reflexivity|]. destruct (index_of hc links); reflexivity.
@@ -1037,11 +1036,11 @@ Qed.
 Definition walk_of_chain (c : chain_result) : walk_result :=
   match c with CEmpty => WPath [] | COk _ p => WPath p | CUnlinked => WUnlinked | CCrash k => WCrash k end.
 
-Lemma walk_rev nodes : walk H (rev nodes) None [] = walk_of_chain (chain_fn false nodes).
-Proof. rewrite <- (app_nil_r (rev nodes)), walk_chain. destruct (chain_fn false nodes); reflexivity. Qed.
+Lemma walk_rev nodes : walk H (rev nodes) None [] = walk_of_chain (chain_fn nodes).
+Proof. rewrite <- (app_nil_r (rev nodes)), walk_chain. destruct (chain_fn nodes); reflexivity. Qed.
 
 (* fixed-text statement of the verdicts (codes as in catapult / the SDK documentation) *)
-Definition verdict_spec (order : bool) (key value : bytes) (path : list node) (state_hash : bytes) (roots : list bytes) : result Z :=
+Definition verdict_spec (key value : bytes) (path : list node) (state_hash : bytes) (roots : list bytes) : result Z :=
   if negb (bytes_eqb state_hash (H (concat roots))) then Ok 0x8001
   else
     match path with
@@ -1057,14 +1056,14 @@ Definition verdict_spec (order : bool) (key value : bytes) (path : list node) (s
           | LeafNode _ v =>
             if negb (bytes_eqb value v) then Ok 0x8003
             else
-              match chain_fn order path with
+              match chain_fn path with
               | CEmpty => Crash index_error
               | CCrash k => Crash k
               | CUnlinked => Ok 0x8004
               | COk _ actual => Ok (if bytes_eqb actual (nibbles_of key) then 0x0001 else 0x8005)
               end
           | BranchNode _ links =>
-            match chain_fn order path with
+            match chain_fn path with
             | CEmpty => Crash index_error
             | CCrash k => Crash k
             | CUnlinked => Ok 0x8004
@@ -1143,7 +1142,7 @@ Proof.
 Qed.
 
 Theorem patricia_verdict_def key value path state_hash roots :
-  prove_patricia_merkle H key value path state_hash roots = verdict_spec false key value path state_hash roots.
+  prove_patricia_merkle H key value path state_hash roots = verdict_spec key value path state_hash roots.
 Proof.
   rewrite prove_patricia_eq. unfold verdict_spec.
   destruct (negb (bytes_eqb state_hash (H (concat roots)))); [reflexivity|].
@@ -1154,12 +1153,12 @@ Proof.
   cbv zeta. rewrite walk_rev.
   destruct (last (first :: rest) first) as [lp lv|lp links].
   - destruct (negb (bytes_eqb value lv)); [reflexivity|].
-    destruct (chain_fn false (first :: rest)) as [|h actual| |k] eqn:Ec; cbn [walk_of_chain]; try reflexivity.
-    + cbn [chain_fn] in Ec. destruct (chain_fn false rest); destruct (node_hash H first); try discriminate;
+    destruct (chain_fn (first :: rest)) as [|h actual| |k] eqn:Ec; cbn [walk_of_chain]; try reflexivity.
+    + cbn [chain_fn] in Ec. destruct (chain_fn rest); destruct (node_hash H first); try discriminate;
         destruct first; try discriminate; destruct (index_of _ _); discriminate.
     + destruct (bytes_eqb actual (nibbles_of key)); reflexivity.
-  - destruct (chain_fn false (first :: rest)) as [|h actual| |k] eqn:Ec; cbn [walk_of_chain]; try reflexivity.
-    + cbn [chain_fn] in Ec. destruct (chain_fn false rest); destruct (node_hash H first); try discriminate;
+  - destruct (chain_fn (first :: rest)) as [|h actual| |k] eqn:Ec; cbn [walk_of_chain]; try reflexivity.
+    + cbn [chain_fn] in Ec. destruct (chain_fn rest); destruct (node_hash H first); try discriminate;
         destruct first; try discriminate; destruct (index_of _ _); discriminate.
     + rewrite get_nibble_key. reflexivity.
 Qed.
@@ -1175,9 +1174,9 @@ Proof.
   - intros Hin. exists h. split; [exact Hin | apply bytes_eqb_refl].
 Qed.
 
-Lemma chain_head_hash order first rest h p : chain_fn order (first :: rest) = COk h p -> node_hash H first = Ok h.
+Lemma chain_head_hash first rest h p : chain_fn (first :: rest) = COk h p -> node_hash H first = Ok h.
 Proof.
-  cbn [chain_fn]. destruct (chain_fn order rest); destruct (node_hash H first); try discriminate.
+  cbn [chain_fn]. destruct (chain_fn rest); destruct (node_hash H first); try discriminate.
   - now intros [= -> _].
   - destruct first; try discriminate. destruct (index_of _ _); [|discriminate]. now intros [= -> _].
 Qed.
@@ -1194,7 +1193,7 @@ Qed.
 Theorem patricia_positive_iff key value path state_hash roots :
   prove_patricia_merkle H key value path state_hash roots = Ok 1 <->
   state_hash = H (concat roots) /\
-  exists front lp h, path = front ++ [LeafNode lp value] /\ chain_fn false path = COk h (nibbles_of key) /\ In h roots.
+  exists front lp h, path = front ++ [LeafNode lp value] /\ chain_fn path = COk h (nibbles_of key) /\ In h roots.
 Proof.
   rewrite patricia_verdict_def. unfold verdict_spec. split.
   - destruct (bytes_eqb state_hash (H (concat roots))) eqn:Es; cbn [negb]; [|discriminate].
@@ -1203,19 +1202,19 @@ Proof.
     destruct (existsb (bytes_eqb fh) roots) eqn:Er; cbn [negb]; [|discriminate]. apply existsb_eqb_In in Er.
     destruct (last (first :: rest) first) as [lp lv|lp links] eqn:El.
     + destruct (bytes_eqb value lv) eqn:Ev; cbn [negb]; [|discriminate]. apply bytes_eqb_eq in Ev. subst lv.
-      destruct (chain_fn false (first :: rest)) as [|h actual| |k] eqn:Ec; try discriminate.
+      destruct (chain_fn (first :: rest)) as [|h actual| |k] eqn:Ec; try discriminate.
       destruct (bytes_eqb actual (nibbles_of key)) eqn:Ea; [|discriminate]. apply bytes_eqb_eq in Ea. subst actual. intros _.
-      pose proof (chain_head_hash _ _ _ _ _ Ec) as Eh'. rewrite Eh in Eh'. injection Eh' as ->.
+      pose proof (chain_head_hash _ _ _ _ Ec) as Eh'. rewrite Eh in Eh'. injection Eh' as ->.
       split; [exact Es|]. exists (removelast (first :: rest)), lp, h. repeat split; auto.
       rewrite <- El. apply app_removelast_last. discriminate.
-    + destruct (chain_fn false (first :: rest)) as [|h actual| |k]; try discriminate.
+    + destruct (chain_fn (first :: rest)) as [|h actual| |k]; try discriminate.
       destruct (negb (is_prefix actual (nibbles_of key))); [discriminate|].
       destruct (nth_error (nibbles_of key) (length actual)) as [z|]; [|discriminate].
       destruct (py_get links z) as [[?|]|]; discriminate.
   - intros (Es & front & lp & h & Ep & Ec & Hin).
     subst state_hash. rewrite bytes_eqb_refl. cbn [negb].
     destruct path as [|first rest]; [destruct front; discriminate|].
-    rewrite (chain_head_hash _ _ _ _ _ Ec).
+    rewrite (chain_head_hash _ _ _ _ Ec).
     apply existsb_eqb_In in Hin. rewrite Hin. cbn [negb].
     assert (El : last (first :: rest) first = LeafNode lp value) by (rewrite Ep; apply last_last).
     rewrite El, bytes_eqb_refl. cbn [negb]. rewrite Ec, bytes_eqb_refl. reflexivity.
@@ -1227,7 +1226,7 @@ Theorem patricia_negative_iff key value path state_hash roots (code : Z) : code 
   prove_patricia_merkle H key value path state_hash roots = Ok code <->
   state_hash = H (concat roots) /\
   exists front lp links h actual next_nibble link,
-    path = front ++ [BranchNode lp links] /\ chain_fn false path = COk h actual /\ In h roots /\
+    path = front ++ [BranchNode lp links] /\ chain_fn path = COk h actual /\ In h roots /\
     is_prefix actual (nibbles_of key) = true /\ nth_error (nibbles_of key) (length actual) = Some next_nibble /\
     py_get links next_nibble = Some link /\ (code = 2 <-> link = None).
 Proof.
@@ -1238,13 +1237,13 @@ Proof.
     destruct (existsb (bytes_eqb fh) roots) eqn:Er; cbn [negb]; [|destruct Hcode; subst; discriminate]. apply existsb_eqb_In in Er.
     destruct (last (first :: rest) first) as [lp lv|lp links] eqn:El.
     + destruct (negb (bytes_eqb value lv)); [destruct Hcode; subst; discriminate|].
-      destruct (chain_fn false (first :: rest)) as [|h actual| |k]; try discriminate; [|destruct Hcode; subst; discriminate].
+      destruct (chain_fn (first :: rest)) as [|h actual| |k]; try discriminate; [|destruct Hcode; subst; discriminate].
       destruct (bytes_eqb actual (nibbles_of key)); destruct Hcode; subst; discriminate.
-    + destruct (chain_fn false (first :: rest)) as [|h actual| |k] eqn:Ec; try discriminate; [|destruct Hcode; subst; discriminate].
+    + destruct (chain_fn (first :: rest)) as [|h actual| |k] eqn:Ec; try discriminate; [|destruct Hcode; subst; discriminate].
       destruct (is_prefix actual (nibbles_of key)) eqn:Epre; cbn [negb]; [|destruct Hcode; subst; discriminate].
       destruct (nth_error (nibbles_of key) (length actual)) as [z|] eqn:En; [|discriminate].
       destruct (py_get links z) as [link|] eqn:Eg; [|discriminate].
-      pose proof (chain_head_hash _ _ _ _ _ Ec) as Eh'. rewrite Eh in Eh'. injection Eh' as ->.
+      pose proof (chain_head_hash _ _ _ _ Ec) as Eh'. rewrite Eh in Eh'. injection Eh' as ->.
       intros Ev. split; [exact Es|].
       exists (removelast (first :: rest)), lp, links, h, actual, z, link. repeat split; auto.
       * rewrite <- El. apply app_removelast_last. discriminate.
@@ -1253,7 +1252,7 @@ Proof.
   - intros (Es & front & lp & links & h & actual & z & link & Ep & Ec & Hin & Epre & En & Eg & Hl).
     subst state_hash. rewrite bytes_eqb_refl. cbn [negb].
     destruct path as [|first rest]; [destruct front; discriminate|].
-    rewrite (chain_head_hash _ _ _ _ _ Ec).
+    rewrite (chain_head_hash _ _ _ _ Ec).
     apply existsb_eqb_In in Hin. rewrite Hin. cbn [negb].
     assert (El : last (first :: rest) first = BranchNode lp links) by (rewrite Ep; apply last_last).
     rewrite El, Ec, Epre. cbn [negb]. rewrite En, Eg.
@@ -1262,57 +1261,96 @@ Proof.
     + destruct Hl as [_ Hl]. specialize (Hl eq_refl). discriminate.
 Qed.
 
-(* ---- the path order of the tree format ---- *)
-(* when every node above the last one has an empty path (the usual case for catapult's trees over hashed keys) the order in
-   which a branch's path and its link index are spelled does not matter, and the verdict is the one the tree format implies *)
-Fixpoint inner_paths_empty (nodes : list node) : Prop :=
-  match nodes with
-  | [] | [_] => True
-  | n :: rest => hex_path (node_path n) = [] /\ inner_paths_empty rest
-  end.
+(* ---- proofs cut from a tree ---- *)
+(* `follows nodes key spelled`: the chain is what a lookup of `key` visits in a tree -- every branch above the last node has
+   its path and then the nibble of its link to the next node on the key, the next node's hash sits in that link (and in no
+   earlier one: two links with the same hash would be the same subtree under two nibbles) -- and `spelled` is the key prefix
+   consumed, including whatever path the last node has (which may or may not agree with the rest of the key) *)
+Inductive follows : list node -> list Z -> list Z -> Prop :=
+| follows_last n h key : node_hash H n = Ok h -> follows [n] key (hex_path (node_path n))
+| follows_step p links c rest nib krest hb h spelled :
+    node_hash H (BranchNode p links) = Ok hb -> node_hash H c = Ok h ->
+    0 <= nib < 16 -> index_of h links = Some (Z.to_nat nib) ->
+    follows (c :: rest) krest spelled ->
+    follows (BranchNode p links :: c :: rest) (hex_path p ++ nib :: krest) (hex_path p ++ nib :: spelled).
 
-Lemma chain_fn_order nodes : inner_paths_empty nodes -> chain_fn false nodes = chain_fn true nodes.
+Lemma follows_chain nodes key spelled : follows nodes key spelled ->
+  exists first rest h, nodes = first :: rest /\ node_hash H first = Ok h /\ chain_fn nodes = COk h spelled.
 Proof.
-  induction nodes as [|n rest IH]; intros He; [reflexivity|].
-  destruct rest as [|c rest]; [reflexivity|].
-  destruct He as [Hn Hr]. change (chain_fn false (n :: c :: rest)) with
-    (match chain_fn false (c :: rest) with
-     | CEmpty => match node_hash H n with Ok h => COk h (hex_path (node_path n)) | Reject => CCrash "ValueError" | Crash k => CCrash k end
-     | COk hc below =>
-       match node_hash H n with
-       | Ok h => match n with
-                 | LeafNode _ _ => CCrash attribute_error
-                 | BranchNode p links => match index_of hc links with None => CUnlinked | Some k => COk h (format_index k ++ hex_path p ++ below) end
-                 end
-       | Reject => CCrash "ValueError"
-       | Crash k => CCrash k
-       end
-     | CUnlinked => CUnlinked
-     | CCrash k => CCrash k
-     end).
-  change (chain_fn true (n :: c :: rest)) with
-    (match chain_fn true (c :: rest) with
-     | CEmpty => match node_hash H n with Ok h => COk h (hex_path (node_path n)) | Reject => CCrash "ValueError" | Crash k => CCrash k end
-     | COk hc below =>
-       match node_hash H n with
-       | Ok h => match n with
-                 | LeafNode _ _ => CCrash attribute_error
-                 | BranchNode p links => match index_of hc links with None => CUnlinked | Some k => COk h (hex_path p ++ format_index k ++ below) end
-                 end
-       | Reject => CCrash "ValueError"
-       | Crash k => CCrash k
-       end
-     | CUnlinked => CUnlinked
-     | CCrash k => CCrash k
-     end).
-  rewrite (IH Hr). destruct (chain_fn true (c :: rest)); try reflexivity.
-  destruct (node_hash H n); try reflexivity. destruct n as [np v|np links]; [reflexivity|].
-  cbn [node_path] in Hn. rewrite Hn. destruct (index_of _ links); reflexivity.
+  induction 1 as [n h key Hn | p links c rest nib krest hb h spelled Hb Hc Hnib Hidx Hf IH].
+  - exists n, [], h. cbn [chain_fn]. rewrite Hn. auto.
+  - destruct IH as (first & rest' & h' & E & Hh & Hchain). injection E as <- <-.
+    rewrite Hc in Hh. injection Hh as <-.
+    exists (BranchNode p links), (c :: rest), hb. repeat split; [exact Hb|].
+    change (chain_fn (BranchNode p links :: c :: rest)) with
+      (match chain_fn (c :: rest) with
+       | CEmpty => match node_hash H (BranchNode p links) with Ok h0 => COk h0 (hex_path p) | Reject => CCrash "ValueError" | Crash k => CCrash k end
+       | COk hc below =>
+         match node_hash H (BranchNode p links) with
+         | Ok h0 => match index_of hc links with None => CUnlinked | Some k => COk h0 (hex_path p ++ format_index k ++ below) end
+         | Reject => CCrash "ValueError"
+         | Crash k => CCrash k
+         end
+       | CUnlinked => CUnlinked
+       | CCrash k => CCrash k
+       end).
+    rewrite Hchain, Hb, Hidx. unfold format_index. rewrite Z2Nat.id by lia.
+    replace (nib <? 16) with true by lia. reflexivity.
 Qed.
 
-Theorem patricia_verdict_tree_order_partial key value path state_hash roots :
-  inner_paths_empty path ->
-  prove_patricia_merkle H key value path state_hash roots = verdict_spec true key value path state_hash roots.
-Proof. intros He. rewrite patricia_verdict_def. unfold verdict_spec. now rewrite (chain_fn_order path He). Qed.
+Lemma follows_prefix nodes key spelled : follows nodes key spelled ->
+  exists above krest, key = above ++ krest /\ spelled = above ++ hex_path (node_path (last nodes (LeafNode {| pp_bytes := []; pp_size := 0 |} []))).
+Proof.
+  induction 1 as [n h key Hn | p links c rest nib krest hb h spelled Hb Hc Hnib Hidx Hf IH].
+  - exists [], key. split; reflexivity.
+  - destruct IH as (above & kr & -> & ->). exists (hex_path p ++ nib :: above), kr.
+    change (last (BranchNode p links :: c :: rest)) with (last (c :: rest)).
+    split; rewrite <- app_assoc; reflexivity.
+Qed.
+
+Lemma bytes_eqb_app_l a b c : bytes_eqb (a ++ b) (a ++ c) = bytes_eqb b c.
+Proof. induction a as [|x a IH]; [reflexivity|]. cbn [app bytes_eqb]. now rewrite Z.eqb_refl, IH. Qed.
+
+Lemma is_prefix_app_l a b c : is_prefix (a ++ b) (a ++ c) = is_prefix b c.
+Proof. induction a as [|x a IH]; [reflexivity|]. cbn [app is_prefix]. now rewrite Z.eqb_refl, IH. Qed.
+
+(* THE VERDICT A TREE IMPLIES.  For an anchored proof cut from a tree along the key (branches with arbitrary, also non-empty,
+   paths): ending in a leaf it is POSITIVE when the leaf's path is the rest of the key and its value the tested one,
+   LEAF_VALUE_MISMATCH for another value, PATH_MISMATCH for another path; ending in a branch it is NEGATIVE when the branch's
+   path is followed in the key by a nibble without link, INCONCLUSIVE when that link exists (the proof stops early), and
+   PATH_MISMATCH when the key leaves the branch's path. *)
+Theorem patricia_verdict_of_cut_proof key value path roots above krest :
+  follows path (nibbles_of key) (above ++ hex_path (node_path (last path (LeafNode {| pp_bytes := []; pp_size := 0 |} [])))) ->
+  nibbles_of key = above ++ krest ->
+  (forall first rest h, path = first :: rest -> node_hash H first = Ok h -> In h roots) ->
+  prove_patricia_merkle H key value path (H (concat roots)) roots =
+  match last path (LeafNode {| pp_bytes := []; pp_size := 0 |} []) with
+  | LeafNode lp lv =>
+    if negb (bytes_eqb value lv) then Ok 0x8003
+    else Ok (if bytes_eqb (hex_path lp) krest then 0x0001 else 0x8005)
+  | BranchNode lp links =>
+    if negb (is_prefix (hex_path lp) krest) then Ok 0x8005
+    else match nth_error krest (length (hex_path lp)) with
+         | None => Crash index_error
+         | Some next_nibble =>
+           match py_get links next_nibble with
+           | None => Crash index_error
+           | Some (Some _) => Ok 0x4001
+           | Some None => Ok 0x0002
+           end
+         end
+  end.
+Proof.
+  intros Hf Hkey Hanch. destruct (follows_chain _ _ _ Hf) as (first & rest & h & -> & Hh & Hchain).
+  rewrite patricia_verdict_def. unfold verdict_spec. rewrite bytes_eqb_refl. cbn [negb]. rewrite Hh.
+  pose proof (Hanch first rest h eq_refl Hh) as Hin. apply existsb_eqb_In in Hin. rewrite Hin. cbn [negb].
+  rewrite (last_default (first :: rest) first (LeafNode {| pp_bytes := []; pp_size := 0 |} [])) by discriminate.
+  rewrite Hchain, Hkey.
+  destruct (last (first :: rest) (LeafNode {| pp_bytes := []; pp_size := 0 |} [])) as [lp lv|lp links]; cbn [node_path].
+  - rewrite bytes_eqb_app_l. reflexivity.
+  - rewrite is_prefix_app_l. destruct (negb (is_prefix (hex_path lp) krest)); [reflexivity|].
+    rewrite app_length, nth_error_app2 by lia. replace (length above + length (hex_path lp) - length above)%nat with (length (hex_path lp)) by lia.
+    reflexivity.
+Qed.
 
 End Verdicts.
